@@ -9,6 +9,7 @@ same *set* of patterns are compared with each other (order independence).
 """
 import itertools
 
+import torch
 import torch.nn as nn
 
 PID = 'C15'
@@ -43,14 +44,24 @@ def _patterns(ltype):
 
         def bias(spec):
             return spec['has_bias']
-        return {'U': None, 'A': big_out, 'B': big_in, 'C': odd_in, 'E': bias}
+
+        def nobias(spec):
+            return spec['_parameters']['bias'] is None
+        return {'U': None, 'A': big_out, 'B': big_in, 'C': odd_in, 'E': bias, 'F': nobias}
 
     def big_out(spec):
         return spec['out_channels'] >= 8
 
     def strided(spec):
         return any(s > 1 for s in spec['stride'])
-    return {'U': None, 'A': conv_dw_constraint, 'B': conv_3_constraint, 'C': big_out, 'E': strided}
+
+    def nobias(spec):
+        # reads a non-scalar entry of the spec, exactly as it appears in vars(layer)
+        return spec['_parameters']['bias'] is None
+    return {'U': None, 'A': conv_dw_constraint, 'B': conv_3_constraint, 'C': big_out, 'E': strided, 'F': nobias}
+
+
+_W, _B = torch.zeros(1), torch.zeros(1)     # stand-ins for the parameter tensors of vars(layer)['_parameters']
 
 
 def _specs(ltype, names):
@@ -62,7 +73,8 @@ def _specs(ltype, names):
         if ltype == 'linear':
             spec = {'out_features': 8 if t.get('A') else 4,
                     'in_features': (9 if t.get('C') else 8) if t.get('B') else (3 if t.get('C') else 4),
-                    'has_bias': bool(t.get('E'))}
+                    'has_bias': bool(t.get('E')),
+                    '_parameters': {'weight': _W, 'bias': None if t.get('F') else _B}}
         else:
             d = 1 if ltype == 'conv1d' else 2
             if t.get('A'):  # depthwise
@@ -73,7 +85,8 @@ def _specs(ltype, names):
                 cin, g = 6, 1
             spec = {'in_channels': cin, 'out_channels': cout, 'groups': g,
                     'kernel_size': (3,) * d if t.get('B') else (5,) * d,
-                    'stride': (2,) * d if t.get('E') else (1,) * d}
+                    'stride': (2,) * d if t.get('E') else (1,) * d,
+                    '_parameters': {'weight': _W, 'bias': None if t.get('F') else _B}}
         out.append((t, spec))
     return out
 
@@ -92,6 +105,12 @@ def cases(tier, seed):
         for default in ('zero', 'fail'):
             for foreign in ((False,) if tier == 'quick' else (False, True)):
                 out.append({'ltype': ltype, 'default': default, 'npat': npat, 'foreign': foreign})
+            # a user constraint over a non-scalar field of the spec (layers that differ only there are looked up on the same CostSpec)
+            out.append({'ltype': ltype, 'default': default, 'npat': npat, 'foreign': False, 'names': ['U', 'A', 'F', 'C', 'B'][:npat]})
+            # one constrained pattern registered with the very function object that is the specification's default ("such layers are free" /
+            # "such layers are not supported"): it is still the function of the constrained pattern the layer satisfies
+            for dp in (('A', 'C') if tier == 'quick' else ('A', 'B', 'C', 'F')):
+                out.append({'ltype': ltype, 'default': default, 'npat': npat, 'foreign': False, 'names': ['U', 'A', 'F', 'C', 'B'][:npat], 'dflt_fn': dp})
     # a user sub-class of nn.Conv2d, with registrations for its parent type interleaved (the parent is the "foreign" type)
     for default in ('zero', 'fail'):
         out.append({'ltype': 'subconv2d', 'default': default, 'npat': 3 if tier == 'quick' else 4, 'foreign': True})
@@ -117,9 +136,11 @@ def _lookup(cs, T, spec):
     return ('default', 'zero' if float(v) == 0.0 else f'value:{float(v)}')
 
 
-def _ref(history, pats, spec, default):
+def _ref(history, pats, spec, default, dflt_fn=None):
     matching = [p for p in history if pats[p] is not None and pats[p](spec)]
     if len(matching) == 1:
+        if matching[0] == dflt_fn:
+            return ('default', default)     # the function registered for that pattern IS the default function
         return ('fn', matching[0])
     if len(matching) == 0:
         if 'U' in history:
@@ -128,7 +149,7 @@ def _ref(history, pats, spec, default):
     return ('raise', 'conflict')
 
 
-def _build(ltype, default, history, foreign, probe=None):
+def _build(ltype, default, history, foreign, probe=None, dflt_fn=None):
     """fresh real CostSpec with the history replayed on it; with `probe` (a list of specs) every spec is looked up on the SAME object
     after every registration, i.e. lookups are interleaved with registrations"""
     from plinio.cost import CostSpec
@@ -140,7 +161,7 @@ def _build(ltype, default, history, foreign, probe=None):
         if foreign:
             # interleave registrations for an unrelated layer type (always-true constraint and unconstrained)
             cs[(other, (lambda s: True) if i % 2 == 0 else None)] = _mk_fn(f'foreign{i}')
-        cs[(T, pats[p])] = _mk_fn(p)
+        cs[(T, pats[p])] = cs.default if p == dflt_fn else _mk_fn(p)
         if probe is not None:
             for _, spec in probe:
                 _lookup(cs, T, spec)
@@ -150,7 +171,8 @@ def _build(ltype, default, history, foreign, probe=None):
 
 def run_case(case, seed):
     ltype, default, npat, foreign = case['ltype'], case['default'], case['npat'], case.get('foreign', False)
-    names = ['U', 'A', 'B', 'C', 'E'][:npat]
+    names = case.get('names') or ['U', 'A', 'B', 'C', 'E'][:npat]
+    dflt_fn = case.get('dflt_fn')
     only = None                      # replay: restrict the BFS to the prefixes of the recorded histories
     if case.get('history') is not None:
         only = [tuple(case['history'])] + ([tuple(case['other'])] if case.get('other') else [])
@@ -171,14 +193,14 @@ def run_case(case, seed):
                 continue
             seen.add(hist)
             states += 1
-            cs, pats, T = _build(ltype, default, hist, foreign)
+            cs, pats, T = _build(ltype, default, hist, foreign, dflt_fn=dflt_fn)
             # the same history with lookups interleaved after every registration (the answer must not depend on earlier lookups)
-            cs2, _, _ = _build(ltype, default, hist, foreign, probe=specs)
+            cs2, _, _ = _build(ltype, default, hist, foreign, probe=specs, dflt_fn=dflt_fn)
             transitions += len(hist) * (2 if foreign else 1) * 2
             answers = []
             for si, (t, spec) in enumerate(specs):
                 got = _lookup(cs, T, spec)
-                exp = _ref(hist, pats, spec, default)
+                exp = _ref(hist, pats, spec, default, dflt_fn)
                 evals += 2
                 got2 = _lookup(cs2, T, spec)
                 if got2 != got:
@@ -188,7 +210,7 @@ def run_case(case, seed):
                                   'case': dict(case, history=list(hist))})
                 outcomes.add(f'{got[0]}:{got[1] if got[0] != "fn" else ("U" if got[1] == "U" else "constrained")}')
                 if hist:
-                    nontrivial.add(f'{ltype}/{default}/{foreign}/{"".join(hist)}/{si}')
+                    nontrivial.add(f'{ltype}/{default}/{foreign}/{"".join(names)}/{dflt_fn}/{"".join(hist)}/{si}')
                 answers.append(got)
                 if got != exp:
                     matching = [p for p in hist if pats[p] is not None and pats[p](spec)]
